@@ -123,3 +123,34 @@ PROPS["C11"] = dict(
          "workspace. Unlike clippy's iter_over_hash_type it sees hashbrown containers and follows the order to the sinks.",
     note="Order dependence inside the index and thread timing are not decided. Trusted: rustc MIR, emmyfacts, the source/"
          "sanitizer tables in lib/hashorder.py, one audited exception (module_analyze main_vec) with its value-level reason.")
+
+PROPS["C05"] = dict(
+    module="fmtguard", func="run_c05", level="other", crates=["emmylua_formatter", "emmylua_ls", "luafmt", "emmylua_check"],
+    technique="CFG dominance + guard-edge analysis at every call site of the formatter core, obligations propagated through wrappers",
+    text="Decides the clause 'input with syntax errors is returned unchanged': every call path into formatter::format_chunk "
+         "passes a has_syntax_errors test whose error edge cannot reach the formatter (library entries, luafmt, the LSP handlers).",
+    note="Only this clause is decided: token-sequence/comment preservation and configured normalisations are value-level "
+         "properties of the re-rendering and are not decided. Trusted: rustc MIR, emmyfacts.")
+PROPS["C07"] = dict(
+    module="fmtguard", func="run_c07", level="other", crates=["emmylua_formatter", "emmylua_ls", "luafmt", "emmylua_check"],
+    technique="CFG dominance + guard-edge analysis at every call site of the range-format core and every fragment re-parse",
+    text="Decides the syntax-error guard clause for range formatting: every path into reformat_range_in_chunk has tested the "
+         "tree for syntax errors, and every re-parse inside the range formatter is tested before its tree is used.",
+    note="That the replaced region covers the selection, dedent/re-indent and token preservation after splicing are not decided.")
+
+PROPS["C19"] = dict(
+    module="c19", func="run", level="other", crates=["emmylua_code_analysis"],
+    technique="call-graph reachability + use-classification of TextRange::intersect results (API misuse rule)",
+    text="Decides the half-open matching clause: on every function reachable from the suppression test, no range predicate "
+         "treats an empty (touching) intersection as overlap. This is the structural root of 'a diagnostic at column 0 below "
+         "the suppressed line is hidden too'.",
+    note="The construction of each directive's range (+1 line, block range, file scope) is position arithmetic and is not decided, "
+         "i.e. most of the property's scope semantics remain undecided.")
+
+PROPS["C23"] = dict(
+    module="c23", func="run", level="other", crates=["emmylua_parser", "emmylua_ls", "emmylua_code_analysis"],
+    technique="declared-vs-implemented agreement: callee sets of the column functions vs capability registration; byte-constant table of LineIndex::parse",
+    text="Decides whether the unit the server implements for `character` equals the encoding it declares to the client, and "
+         "whether its line-terminator set equals the protocol's. Both disagree on the pinned tree (two open known findings); "
+         "the rule passes once either side is changed to agree and fires again on regression.",
+    note="Does not decide the arithmetic of the conversions (C22 not applicable). Trusted: rustc MIR, emmyfacts.")
